@@ -88,7 +88,12 @@ impl Graph {
             .sorted_by(|a, b| {
                 let primary = b.node_rank.cmp(&a.node_rank);
                 if primary == Ordering::Equal {
-                    a.key.cmp(&b.key)
+                    // node ids depend on the order in which notes were (re)built, so ties must
+                    // not be left to them
+                    a.key
+                        .cmp(&b.key)
+                        .then_with(|| a.line.cmp(&b.line))
+                        .then_with(|| a.search_text.cmp(&b.search_text))
                 } else {
                     primary
                 }
